@@ -843,4 +843,39 @@ theorem trim_white_space (pre r post : Name) (hpre : pre.all isWs = true) (hpost
   unfold trim
   rw [List.append_assoc, dropWhile_ws_append_left _ _ hpre, dropWhile_ws_append_right _ _ hpost]
 
+/-! ## null through the closures (finding F73-null-item-any-alias) -/
+
+theorem evaluator_null (defs : Defs) : ∀ fuel n f, evaluator defs fuel n = some f → f .null = .null := by
+  intro fuel
+  induction fuel with
+  | zero =>
+    intro n f h
+    simp only [evaluator, Option.some.injEq] at h
+    rw [← h]
+  | succ fuel ih =>
+    intro n f h
+    simp only [evaluator] at h
+    cases hl : lookup defs n with
+    | none => rw [hl] at h; cases h
+    | some t =>
+      rw [hl] at h
+      simp only [Option.some.injEq] at h
+      rw [← h]
+      exact checkWith_null _ ih t
+
+theorem refLoop_null (f : DTValue → DTValue) (hf : f .null = .null) (xs : List DTValue) (h : DTValue.null ∈ xs) :
+    refLoop f xs = none := by
+  induction xs with
+  | nil => cases h
+  | cons x xs ih =>
+    simp only [refLoop]
+    by_cases hx : f x = .null
+    · rw [if_pos hx]
+    · rw [if_neg hx]
+      have : DTValue.null ∈ xs := by
+        rcases List.mem_cons.mp h with e | e
+        · rw [← e] at hx; exact absurd hf hx
+        · exact e
+      rw [ih this]
+
 end Dmn.ID
